@@ -31,11 +31,11 @@ class Driver:
 
 
 def parse_obs(st, nt):
-    """obs_state list -> (dirty, heaps[(count,np,armed,min0,min1)], timers[(armed,ident,tg,dl,itv,pending,e0,e1,cfg)])"""
+    """obs_state list -> (dirty, heaps[(count,np,armed,min0,min1)], timers[(armed,ident,tg,dl,itv,pending,e0,e1,cfg,registered)])"""
     dirty = st[0]
     heaps = [tuple(st[1 + 5 * i:6 + 5 * i]) for i in range(3)]
     rest = st[16:]
-    timers = [tuple(rest[9 * i:9 * i + 9]) for i in range(nt)]
+    timers = [tuple(rest[10 * i:10 * i + 10]) for i in range(nt)]
     return dirty, heaps, timers
 
 
@@ -198,6 +198,10 @@ def replay(driver_exe, log, report):
                 # the guard of the system theorems: no DISARMED marker pending at resume
                 if tm[5] & 1 or pend & 1:
                     probs.append({"key": "trace:guard-resume", "what": "_dispatch_unote_resume of timer %d with ds_pending_data %d (model %d): the DISARMED marker is set" % (t, pend, tm[5])})
+                # ... and the unote is registered (_du_state_needs_rearm): a dispatch_after timer that fired, or a
+                # cancelled one, is never resumed again
+                if tm[9] != 1:
+                    probs.append({"key": "trace:guard-resume-registered", "what": "_dispatch_unote_resume of timer %d whose unote is not registered in the model (DU_STATE_UNREGISTERED after a one-shot fire or an unregister)" % t})
                 if (tm[0], tm[2], tm[3], tm[4]) != (armed, ev[4], ev[5], ev[6]) or (tm[5] != pend and not any(log[f][1] == t for f in floating)):
                     probs.append({"key": "trace:resume-state", "what": "at _dispatch_unote_resume timer %d is (armed %d target %d deadline %d interval %d pending %d), the model has (%d %d %d %d %d)"
                                   % (t, armed, ev[4], ev[5], ev[6], pend, tm[0], tm[2], tm[3], tm[4], tm[5])})
